@@ -24,6 +24,8 @@ let core_op tok =
   | "k" -> CoreSys.OTick x
   | "n" -> CoreSys.ORotate (x, n_of_int (int_of_string p.(2)), n_of_dec p.(3), p.(4) = "1", unhex p.(5))
   | "p" -> CoreSys.OState x
+  | "q" -> CoreSys.OSetNonce (x, n_of_int (int_of_string p.(2)), unhex p.(3))
+  | "z" -> CoreSys.OLog
   | _ -> failwith "bad core op"
 
 let core_out = function
@@ -32,6 +34,7 @@ let core_out = function
   | CoreSys.CErr -> "err"
   | CoreSys.CPanic -> "panic"
   | CoreSys.CNone -> "-"
+  | CoreSys.CLog l -> "z" ^ S.concat "," (L.map (fun (k, nn) -> Printf.sprintf "k%d/%s" (int_of_n k) (hex nn)) l)
   | CoreSys.CState (cur, st) ->
     Printf.sprintf "st:%d:%s" (int_of_n cur)
       (S.concat "," (L.map (fun (((snd_, mn), nm), sn) -> Printf.sprintf "%s/%s/%s/%s" (hex snd_) (be12 mn) (be12 nm) (be12 sn)) st))
@@ -131,6 +134,8 @@ let pc_op tok =
   | "S" -> PcSys.PSend (ni p.(1), n_of_int (int_of_string p.(2)), unhex p.(3))
   | "C" -> PcSys.PSetCounter (ni p.(1), n_of_int (int_of_string p.(2)))
   | "X" -> PcSys.PDrop (ni p.(1))
+  | "Z" -> PcSys.PSealLog
+  | "V" -> PcSys.PStale (ni p.(1), ni p.(2), ni p.(3))
   | "Q" -> PcSys.PQuery (ni p.(1))
   | "L" -> PcSys.PLast (ni p.(1), ni p.(2), n_of_int (match p.(3) with "i" -> 0 | "r" -> 1 | "d" -> 2 | _ -> 3), ni p.(4))
   | _ -> failwith "bad pc op"
@@ -176,6 +181,7 @@ let pc_out = function
   | PcSys.OOk w -> "ok" ^ describe w
   | PcSys.ORes (r, w) -> pc_result r ^ (match w with Some x -> describe x | None -> "")
   | PcSys.OQuery p -> pc_query p
+  | PcSys.OSealLog -> "z"
 
 let pc_scenario a =
   let (_, outs) = PcSys.prun PcSys.always_ok PcSys.pst0 (L.map pc_op a) in
@@ -344,6 +350,12 @@ let run (op : string) (a : string list) : string option =
   | "table" -> Some (table_scenario a)
   | "pc" -> Some (pc_scenario a)
   | "node" -> Some (node_scenario a)
+  | "ival" ->
+    let pt = nz (arg 0) in
+    let ka = if arg 1 = "-" then None else Some (nz (arg 1)) in
+    let adv = if arg 2 = "-" then [] else L.map nz (split ',' (arg 2)) in
+    let iv = Interval.announce_interval (Interval.update_freq pt ka) adv in
+    Some (Printf.sprintf "ok %d sent=%d" (int_of_n iv) (L.length adv))
   | "ni_enc" | "ni_dec" | "ni_rt" -> Some (ni_op op a)
   | "im_parse_m" -> Some (im_parse_m a)
   | "rot_dec" -> Some (match Conn.rot_decode (unhex (arg 0)) with
